@@ -318,6 +318,10 @@ func (r *pairRun) appCalls() []action {
 			if s == &r.b {
 				allow = r.stallDrain
 			}
+		case "stall-a": // the same with the roles swapped: A is the application that reads late
+			if s == &r.a {
+				allow = r.stallDrain
+			}
 		}
 		if cfg.Close == "close-unread" && s == &r.b {
 			allow = false
@@ -433,9 +437,9 @@ func (r *pairRun) menu() []action {
 		if r.dev('t') && len(timers) > 0 && !horizon {
 			m = append(m, action{name: "early " + fire.name, cost: 1, do: func() { r.earlyTimer = true; vtime.FireNext() }})
 		}
-	case r.cfg.Read == "stall" && !r.stallDrain && r.b.sock != nil:
-		// nothing can move any more with B not reading: B's application now drains
-		m = append(m, action{name: "B.start-draining", do: func() { r.stallDrain = true }})
+	case (r.cfg.Read == "stall" || r.cfg.Read == "stall-a") && !r.stallDrain && r.b.sock != nil:
+		// nothing can move any more with the stalled application not reading: it now drains
+		m = append(m, action{name: "stalled-reader.start-draining", do: func() { r.stallDrain = true }})
 	case len(timers) > 0 && !horizon:
 		m = append(m, fire)
 		if r.dev('r') && r.lastData != nil {
@@ -577,7 +581,7 @@ func (r *pairRun) atEnd(stepCap bool) {
 	if !anyErr && r.cfg.Close != "close-unread" && r.cfg.Close != "a-close" {
 		for _, p := range [][2]*side{{&r.a, &r.b}, {&r.b, &r.a}} {
 			rd, wr := p[0], p[1]
-			if len(wr.chunks) == 0 && !bytes.Equal(rd.got, wr.wrote) && !(r.cfg.Read == "stall" && !r.stallDrain) {
+			if len(wr.chunks) == 0 && !bytes.Equal(rd.got, wr.wrote) && !((r.cfg.Read == "stall" || r.cfg.Read == "stall-a") && !r.stallDrain) {
 				r.fail("C02", "incomplete", "incomplete", "%s wrote %d bytes, all accepted, but %s has read only %d at the end of the run (no endpoint reports an error)", wr.name, len(wr.wrote), rd.name, len(rd.got))
 			}
 		}
